@@ -47,6 +47,8 @@ class Recorder:
         self.prefix = prefix
         self.calls = {}
         self.literal = literal      # return graphviz.nohtml('<token>'): literal text shaped like <...>
+        self.epoch = 0              # bumped by the driver: "the state the callback reads has changed"
+        self.born = {}              # token -> epoch in which it was produced
 
     def __call__(self, names):
         names = tuple(names)
@@ -55,8 +57,10 @@ class Recorder:
             import graphviz
             token = f'<{token}>'
             self.calls[token] = names
+            self.born[token] = self.epoch
             return graphviz.nohtml(token)
         self.calls[token] = names
+        self.born[token] = self.epoch
         return token
 
 
@@ -359,6 +363,11 @@ class GraphvizMonitor(Monitor):
                     elif given != tuple(want):
                         COL.violation('graphviz', f'graphviz:{key}-callback-got-other-names', want, given,
                                       {'node': name})
+                    elif cb.born.get(text, cb.epoch) != cb.epoch:
+                        # the same callable was used for an earlier export and what it reads has changed since
+                        # (a display-name table the user edited): this text is not what it produces now
+                        COL.violation('graphviz', f'graphviz:{key}-text-is-what-the-callback-produced-before-its-state-changed',
+                                      f'a text produced in epoch {cb.epoch}', f'{text} (epoch {cb.born.get(text)})', {'node': name})
                 elif cb is None:
                     if any(_hostile(x) for x in want):
                         COL.count('out_of_scope_escstring_label')
@@ -479,6 +488,14 @@ def run_case(concepts, case, spec):
     call(lat.graphviz, None, None, False, False, Recorder('W'), Recorder('Y'))     # documented positional order
     kk = hash(gen.table_key(case))
     call(lat.graphviz, make_object_label=shaped(Recorder('A'), kk), make_property_label=shaped(Recorder('B'), kk // 7))
+    # the same callable objects used for two exports, and what they read has changed in between
+    so, sp = Recorder('E'), Recorder('H')
+    fo, fp = (so, sp) if kk % 2 else (shaped(so, kk // 3), shaped(sp, kk // 5))
+    call(lat.graphviz, make_object_label=fo, make_property_label=fp)
+    so.epoch += 1
+    sp.epoch += 1
+    call(lat.graphviz, make_object_label=fo, make_property_label=fp)
+    COL.count('same_callables_used_again_after_their_state_changed')
     ro, rp = ReentrantRecorder('N'), ReentrantRecorder('Z')
     ro.lattice = rp.lattice = lat
     call(lat.graphviz, make_object_label=ro, make_property_label=rp)
